@@ -598,7 +598,7 @@ func init() {
 			"a stalled cleanup loop is declared after 30 s without a pass at a <= 20 ms interval (1 500 missed ticks)",
 			"rows whose deadline was moved later are judged only when the moving transaction was acknowledged 150 ms before the old deadline"},
 		Plan: func(tier string) []Plan {
-			n := 18
+			n := 60
 			if tier == "thorough" {
 				n = 1800
 			}
